@@ -42,6 +42,7 @@ type c02Case struct {
 	NilBlock bool        `json:"nil_block"`
 	ByteOps  []byteOp    `json:"byteops"`
 	RawProof []byte      `json:"raw_proof,omitempty"` // if set, used verbatim
+	BlockID  string      `json:"block_id,omitempty"`  // the block being validated (default "the-block"); another id = a fork block of the same height
 }
 
 type c02World struct {
@@ -52,6 +53,8 @@ type c02World struct {
 	com    []interfaces.CommitteeMember
 	wl     *leanhelix.WorkerLoop
 	env    *ref.Env
+	// signatures of the signers of the previous / the current proof built on this instance (signer mode "prev-proof")
+	lastSigs, curSigs map[int][]byte
 }
 
 func newC02World(ws []uint64, height uint64) *c02World {
@@ -97,12 +100,23 @@ func commitmentOKc02(block interfaces.Block, hash primitives.BlockHash) bool {
 	return b != nil && b.Hash().Equal(hash)
 }
 
-func runC02(c c02Case) (*ev.Violation, bool, bool) {
+func runC02(c c02Case) (*ev.Violation, bool, bool) { return runC02In(nil, c, nil) }
+
+// runC02In validates one case on the given validator instance (nil: a fresh one). With shared != nil the proof bytes are written
+// into that buffer (a consumer that reuses its receive buffer), and signer mode "prev-proof" lifts the signature the same signer
+// gave in the previous proof validated on this instance.
+func runC02In(w *c02World, c c02Case, shared *[]byte) (*ev.Violation, bool, bool) {
 	viol := func(kind, format string, a ...interface{}) *ev.Violation {
 		return &ev.Violation{Property: "C02", Kind: kind, Detail: fmt.Sprintf(format, a...), Replayer: "C02", Case: c}
 	}
-	w := newC02World(c.Weights, c.Height)
-	block := &fakes.Block{H: primitives.BlockHeight(c.Height), Ref: 7, ID: "the-block", Prev: "p", Valid: true}
+	if w == nil {
+		w = newC02World(c.Weights, c.Height)
+	}
+	bid := c.BlockID
+	if bid == "" {
+		bid = "the-block"
+	}
+	block := &fakes.Block{H: primitives.BlockHeight(c.Height), Ref: 7, ID: bid, Prev: "p", Valid: true}
 	prevBlock := &fakes.Block{H: primitives.BlockHeight(c.Height - 1), Ref: 6, ID: "p", Valid: true}
 	// previous proof
 	var prevProof []byte
@@ -148,6 +162,14 @@ func runC02(c c02Case) (*ev.Violation, bool, bool) {
 				sig = w.reg.SignAs(id, primitives.BlockHeight(c.RefH), r2.Build().Raw())
 			case "other-key":
 				sig = w.reg.SignAs(w.ids[(idx+1)%len(w.ids)], primitives.BlockHeight(c.RefH), refRaw)
+			case "prev-proof": // the genuine signature this signer gave in the previous proof validated on this instance
+				sig = w.lastSigs[idx]
+			}
+			if w.curSigs == nil {
+				w.curSigs = map[int][]byte{}
+			}
+			if s.Mode == "ok" {
+				w.curSigs[idx] = sig
 			}
 			nodes = append(nodes, &protocol.SenderSignatureBuilder{MemberId: id, Signature: sig})
 		}
@@ -165,6 +187,15 @@ func runC02(c c02Case) (*ev.Violation, bool, bool) {
 		}
 		proof = (&protocol.BlockProofBuilder{BlockRef: refB, Nodes: nodes, RandomSeedSignature: seedSig}).Build().Raw()
 		proof = applyByteOps(proof, c.ByteOps)
+	}
+	w.lastSigs, w.curSigs = w.curSigs, nil
+	if shared != nil { // the consumer keeps one receive buffer and overwrites it with every proof
+		if cap(*shared) < len(proof) {
+			*shared = make([]byte, 0, 2*len(proof)+64)
+		}
+		*shared = (*shared)[:len(proof)]
+		copy(*shared, proof)
+		proof = *shared
 	}
 	var blk interfaces.Block = block
 	if c.NilBlock {
@@ -341,7 +372,85 @@ func TestC02(t *testing.T) {
 	})
 }
 
+// Sequences on ONE validator instance: a genuine proof, then one or two more for the same height - typically a fork block whose
+// proof names its own hash but carries the signatures given for the first block - with every proof placed into the same receive
+// buffer. Whatever the instance remembers between calls must not change a verdict.
+type c02SeqCase struct {
+	Cases       []c02Case `json:"cases"`
+	ReuseBuffer bool      `json:"reuse_buffer"`
+}
+
+func runC02Seq(sc c02SeqCase) *ev.Violation {
+	if len(sc.Cases) == 0 {
+		return nil
+	}
+	w := newC02World(sc.Cases[0].Weights, sc.Cases[0].Height)
+	var buf []byte
+	for i, c := range sc.Cases {
+		var shared *[]byte
+		if sc.ReuseBuffer {
+			shared = &buf
+		}
+		if v, _, _ := runC02In(w, c, shared); v != nil {
+			v.Kind = fmt.Sprintf("sequence-step-%d:%s", i, v.Kind)
+			v.Replayer = "C02seq"
+			v.Case = sc
+			return v
+		}
+	}
+	return nil
+}
+
+func TestC02Seq(t *testing.T) {
+	col := ev.Get("C02")
+	rapid.Check(t, func(t *rapid.T) {
+		first := drawC02(t)
+		sc := c02SeqCase{Cases: []c02Case{first}, ReuseBuffer: rapid.IntRange(0, 3).Draw(t, "reuse") > 0}
+		for k := rapid.IntRange(1, 2).Draw(t, "more"); k > 0; k-- {
+			next := first
+			next.Signers = append([]c02Signer{}, first.Signers...)
+			next.ByteOps, next.RawProof = nil, nil
+			switch rapid.IntRange(0, 3).Draw(t, "follow-up") {
+			case 0, 1: // a fork block of the same height with its own (satisfied) hash, under the signatures given for the first block
+				next.BlockID = "fork-block"
+				for i := range next.Signers {
+					next.Signers[i].Mode = "prev-proof"
+				}
+			case 2: // same block, other view, signatures lifted from the first proof
+				next.View = first.View + 1
+				for i := range next.Signers {
+					next.Signers[i].Mode = "prev-proof"
+				}
+			case 3: // the same proof once more (must get the same verdict)
+			}
+			if rapid.Bool().Draw(t, "flip-mode") {
+				next.Soft = !next.Soft
+			}
+			sc.Cases = append(sc.Cases, next)
+		}
+		col.Case()
+		col.Class("sequence-on-one-instance")
+		if sc.ReuseBuffer {
+			col.Class("sequence:buffer-reused")
+		}
+		b, _ := json.Marshal(sc)
+		col.NonTrivial(string(b))
+		if v := runC02Seq(sc); v != nil {
+			if msg := ev.Report(v); msg != "" {
+				t.Fatal(msg)
+			}
+		}
+	})
+}
+
 func init() {
+	replayers["C02seq"] = func(raw json.RawMessage) *ev.Violation {
+		var c c02SeqCase
+		if err := json.Unmarshal(raw, &c); err != nil {
+			return &ev.Violation{Property: "C02", Kind: "bad-replay-file", Detail: err.Error()}
+		}
+		return runC02Seq(c)
+	}
 	replayers["C02"] = func(raw json.RawMessage) *ev.Violation {
 		var c c02Case
 		if err := json.Unmarshal(raw, &c); err != nil {
